@@ -173,6 +173,22 @@ def scripted_close(S):
         yield ev
 
 
+def scripted_restart(S):
+    """a publisher shuts down in an orderly way (CLOSE) and a new one comes up on the same address counting from 0 again: the consumer must not hand out ids it has passed"""
+    for k in range(S):
+        ev = []
+        for mid in range(4):
+            for j in range(S):
+                ev += [('pub', j, mid), ('deliver', j, 9)]
+            ev.append(('recv',))
+        ev += [('close', k)]                      # its CLOSE and the first frames of the restarted publisher are waiting together when the consumer looks next
+        for mid in range(3):                      # the restarted publisher k starts over at id 0; the others (if any) go on
+            for j in range(S):
+                ev += [('pub', j, mid if j == k else 4 + mid), ('deliver', j, 9)]
+            ev.append(('recv',))
+        yield ev
+
+
 def random_history(rnd, S):
     ev, nxt = [], [0] * S
     for _ in range(rnd.randint(4, 14)):
@@ -229,7 +245,7 @@ def lost_frame_check():
 
 
 def search(modes, ephs, balance, n_random=3000, seed=0):
-    for ev in list(scripted(modes, ephs, balance)) + (list(scripted_held(len(modes))) if not balance and not any(ephs) else []) + (list(scripted_close(len(modes))) if not any(ephs) else []):
+    for ev in list(scripted(modes, ephs, balance)) + (list(scripted_held(len(modes))) if not balance and not any(ephs) else []) + (list(scripted_close(len(modes))) if not any(ephs) else []) + (list(scripted_restart(len(modes))) if not any(ephs) else []):
         bad, log = run_history(modes, ephs, balance, ev)
         if bad:
             return {'confirmed': True, 'history': [list(e) for e in ev], 'observed': bad, 'log': log}
